@@ -27,6 +27,7 @@ func VH_C19_snps() {
 	e0 := SNPs(bytes.NewReader(ref), bytes.NewReader(aln), false, aggregate, 0, w0)
 	vAssert("C19.snps.no-failure-no-error", e0 == nil && w0.n > 0)
 	k := 1 + vChoice("k", w0.n)
+	vRaceDetect()
 	vSchedExplore(vParam("DEV"))
 	w := &vFailWriter{failAt: k}
 	err := SNPs(bytes.NewReader(ref), bytes.NewReader(aln), false, aggregate, 0, w)
